@@ -6,6 +6,7 @@
 #include <errno.h>
 #include <linux/futex.h>
 #include <signal.h>
+#include <fcntl.h>
 #include <stdio.h>
 #include <string.h>
 #include <sys/syscall.h>
@@ -45,6 +46,7 @@ static struct Sched {
     int park_thr = -1, park_point = -1; bool parked = false;
     // ForkExec
     bool fork_mode = false; int fork_point = 0; int phase = 0;
+    int app_idx = -1;
     int extra_point[MAXT] = {0}; bool extra_parked[MAXT] = {false}; bool extras_released = false;
     volatile int main_futex = 0;
     int max_overlap = 0, blocked_events = 0;
@@ -69,6 +71,7 @@ void sched_abort_park() {
     for (;;) { volatile int z = 0; raw_syscall6(SYS_futex, (long)&z, FUTEX_WAIT, 0, 0, 0, 0); }
 }
 
+bool g_sched_hint_close = false;
 static bool runnable(int i) {
     if (S.t[i].state != TS_RUNNABLE) return false;
     if (S.parked && i == S.park_thr) return false;
@@ -98,6 +101,12 @@ static int choose(int me) {
         if (S.t[0].state == TS_DONE) S.extras_released = true;
         S.trace.push_back(pick);
         return pick;
+    }
+    // a library thread is about to close a descriptor: a good moment for the application thread to open one (if the number was already
+    // free - a second close - the application gets exactly that number)
+    if (!S.have_replay && g_sched_hint_close && S.app_idx >= 0 && me != S.app_idx && runnable(S.app_idx) && S.rng.chance(1, 2)) {
+        S.trace.push_back(S.app_idx);
+        return S.app_idx;
     }
     if (S.have_replay) {
         if (S.rpos < S.replay.size()) { int c = S.replay[S.rpos++]; if (c >= 0 && c < S.n && runnable(c)) pick = c; }
@@ -344,12 +353,36 @@ static void *thread_body(void *p) {
 }
 
 extern char **environ;
+// A thread of the calling program that is not inside the library: it opens descriptors of its own (lowest free number, like everybody's),
+// keeps each for a while and checks that it is still the one it opened - the library must never close or replace a descriptor it does not own.
+static int g_app_opens = 0; static std::string g_app_damage;
+static void *app_body(void *p) {
+    int me = ((ThreadArg *)p)->idx;
+    t_thr = me; t_in_sut = 0; t_in_sim = 0;
+    fwait(&S.t[me].futex);
+    for (int k = 0; k < g_app_opens; k++) {
+        int fd, id;
+        { SimScope s; sched_point(SP_IO); fd = k_open("/dev/null", O_RDONLY, 0); id = fd >= 0 && G.fds.count(fd) ? G.fds[fd].id : -1; }
+        { SimScope s; sched_point(SP_IO); }
+        {
+            SimScope s;
+            auto it = G.fds.find(fd);
+            if (fd >= 0 && (it == G.fds.end() || it->second.id != id) && g_app_damage.empty())
+                g_app_damage = "descriptor " + std::to_string(fd) + " that another thread of the caller had opened was " + (it == G.fds.end() ? "closed" : "closed and replaced") + " behind its back";
+            if (fd >= 0 && it != G.fds.end() && it->second.id == id) k_close(fd);
+        }
+    }
+    finish_thread(me);
+    return nullptr;
+}
+
 void run_batch(const Plan &plan, int opi, const Op &op, RunResult &r) {
     (void)plan;
     int n = (int)op.threads.size();
     if (n < 1 || n > 64) return;
     S = Sched();
-    S.n = n; S.policy = op.policy; S.rng.reseed(op.sched_seed ^ 0x5ced);
+    g_app_opens = op.app_opens; g_app_damage.clear();
+    S.n = n + (op.app_opens > 0 ? 1 : 0); S.policy = op.policy; S.rng.reseed(op.sched_seed ^ 0x5ced);
     S.have_replay = op.have_schedule; S.replay = op.schedule;
     size_t base = r.obs.size(); int total = 0;
     for (auto &t : op.threads) total += (int)t.size();
@@ -369,6 +402,7 @@ void run_batch(const Plan &plan, int opi, const Op &op, RunResult &r) {
         S.park_thr = (int)(op.sched_seed % (uint64_t)n);
         S.park_point = 1 + (int)((op.sched_seed / (uint64_t)n) % 120);
     }
+    if (op.app_opens > 0) S.t[n].prio = (int)S.rng.below((uint64_t)n + 1) * 1000 + 500;
     // process environment for the whole batch
     std::vector<char *> store; char **saved = environ;
     std::vector<char *> vec;
@@ -384,12 +418,21 @@ void run_batch(const Plan &plan, int opi, const Op &op, RunResult &r) {
         if (pthread_create(&S.t[i].th, &at, thread_body, &args[i]) != 0) { dprintf(2, "harness problem: pthread_create failed\n"); _exit(2); }
         pthread_attr_destroy(&at);
     }
+    static std::vector<ExecOp> no_calls;
+    if (op.app_opens > 0) {
+        S.app_idx = n;
+        S.t[n].state = TS_RUNNABLE; S.t[n].calls = &no_calls; S.t[n].first_opi = o; S.t[n].obs = &r.obs; args[n].idx = n;
+        pthread_attr_t at; pthread_attr_init(&at); pthread_attr_setstacksize(&at, 1 << 20);
+        if (pthread_create(&S.t[n].th, &at, app_body, &args[n]) != 0) { dprintf(2, "harness problem: pthread_create failed\n"); _exit(2); }
+        pthread_attr_destroy(&at);
+    }
     int first = choose(-1);
     fwake(&S.t[first].futex);
     fwait(&S.main_futex);
+    if (!g_app_damage.empty()) { G.counters["app-descriptor-damaged"]++; if (r.abort_class.empty() && G.abort_class.empty()) { r.app_damage = g_app_damage; } }
     r.schedule = S.trace; r.sched_points = (int)S.total_points; r.max_overlap = S.max_overlap; r.blocked_on_mutex = S.blocked_events;
     if (!S.aborting) {
-        for (int i = 0; i < n; i++) pthread_join(S.t[i].th, nullptr);
+        for (int i = 0; i < S.n; i++) pthread_join(S.t[i].th, nullptr);
         G.multi = false;
         environ = saved;
         for (char *c : vec) free(c);
